@@ -91,6 +91,9 @@ class Engine(BaseEngine):
                 return Verdict(oracle_ok=False, cls="signed-event-fields", detail="the signed event's accessors differ from the parts", outcome="acc")
             if i["accepted_mutations"] != "-":
                 return Verdict(oracle_ok=False, cls="mutation-accepted", detail="verification still succeeds after: %s" % i["accepted_mutations"], outcome="mut")
+            if i.get("rejected_after", "-") != "-":
+                return Verdict(oracle_ok=False, cls="verify-depends-on-history",
+                               detail="the valid event was rejected when verified right after the rejected mutation(s): %s" % i["rejected_after"], outcome="hist")
             if not m.get("r", "").startswith("ok "):
                 return Verdict(corr_ok=False, cls="canon-model", detail="model canon: %s" % m.get("r"), outcome="ok")
             want = hashlib.sha256(bytes.fromhex(m["r"][3:])).hexdigest()
